@@ -15,6 +15,13 @@ Definition out_gen (iv : interval) (r : gen_out) : list Z :=
    Z.b2z (iv_invert iv); dv_W (iv_start iv); Z.b2z (dv_f (iv_start iv)); dv_W (iv_end iv); Z.b2z (dv_f (iv_end iv));
    Z.of_nat (length l)] ++ flat_map out_val l.
 
+(* index of the first yielded value that is not `in` the interval, as -(index+1); the number of values when all are members *)
+Fixpoint members (iv : interval) (l : list dtv) (i : Z) : Z :=
+  match l with
+  | [] => i
+  | x :: r => if py_contains iv x then members iv r (i + 1) else - (i + 1)
+  end.
+
 Definition mkval (kind : Z) (z : zone) (fixed tzid W f : Z) : dtv := mkdtv kind z (zb fixed) tzid W (zb f).
 
 Definition dispatch (fn : Z) (args : list Z) : list Z :=
@@ -31,6 +38,10 @@ Definition dispatch (fn : Z) (args : list Z) : list Z :=
       | 2 (* iter *), [kind; fa; fb; ia; ib; Ws; fs; We; fe; absolute; fuel] =>
           let iv := mk_interval (mkval kind za fa ia Ws fs) (mkval kind zb_ fb ib We fe) (zb absolute) in
           out_gen iv (py_iter (Z.to_nat fuel) iv)
+      | 5 (* member *), [kind; fa; fb; ia; ib; Ws; fs; We; fe; absolute; unit; amount; fuel] =>
+          let iv := mk_interval (mkval kind za fa ia Ws fs) (mkval kind zb_ fb ib We fe) (zb absolute) in
+          let l := fst (py_range (Z.to_nat fuel) iv unit amount) in
+          [0; Z.of_nat (length l); members iv l 0]
       | 3 (* contains *), _ =>
           match parse_zone rest2 with
           | Some (zx, [kind; fa; fb; fx; ia; ib; ix; Ws; fs; We; fe; absolute; Wx; ffx]) =>
